@@ -666,6 +666,9 @@ def _slice_len(d, sl):
         if x.kind == "int" and isinstance(x.extra, tuple) and len(x.extra) == 3 and x.extra[0] == "index" and isinstance(x.extra[1], Dim) and x.extra[1].is_const() and x.extra[1].c >= 0 and x.extra[2] == d and isinstance(x.term, Term) and x.term.op == "lv":
             # a position of this very axis counted by a loop (0 <= x < d): a[x:] has d - x entries
             return Dim(0, {("t", x.term): 1})
+        if x.kind == "int" and x.dim is None and isinstance(x.term, Term) and x.term.op == "count" and len(x.term.args) == 1:
+            # a[:count(mask)]: the number of flagged entries is the extent of the prefix (as for min(count, count))
+            return Dim(0, {("t", x.term): 1})
         return None
     if none(lo) and none(hi):
         return d
